@@ -102,8 +102,10 @@ def judge(status, skel, recs, verdict, pub="-", compare_words=True):
         f = r.split("@")
         if compare_words and len(f) >= 4 and f[2] != f[3]:
             vw, ww = f[2].split(","), f[3].split(",")
-            # WASM may hold extra trailing zero words (storage grown on demand): compare the VM's extent
-            if vw != ww[:len(vw)] or any(x not in ("0", ".") for x in ww[len(vw):]):
+            # the WASM storage grows on demand (cells of an arm never taken are not there yet), the VM's is sized from the
+            # layout: the storages are equal when the common extent is and the rest of the longer one is zero
+            k2 = min(len(vw), len(ww))
+            if vw[:k2] != ww[:k2] or any(x not in ("0", ".") for x in vw[k2:] + ww[k2:]):
                 return f"state-words-differ at sample {k}: vm={f[2][:200]} wasm={f[3][:200]}", None
     return None, verdict
 
